@@ -11,7 +11,7 @@ def run(tier, seed):
     o3, m3 = faces.bisector_obligations("C03")
     obs += [x for x in o3 if "labels_right_is_neighbour" in x.name or "neighbour_position" in x.name or "every_candidate" in x.name or "loop_runs_over" in x.name or x.expect_sat]; fns.append(m3)
     o4, us = faces.face_init_obligations("C03")
-    obs += [x for x in o4 if "face_labels" in x.name]; fns += [{"fn": us[1].label, "slice_sha": us[1].sha}]
+    obs += [x for x in o4 if "face_labels" in x.name]; fns += [{"fn": u_.label, "slice_sha": u_.sha} for u_ in us[1:2]]
     # the position the exact predicate sees for a periodic neighbour is generator + shift too (globally consistent clip decisions)
     o5, u5 = grid.right_loc_obligations("C03")
     obs += [x for x in o5 if "neighbour_is_generator_plus_shift" in x.name or x.expect_sat]; fns += [{"fn": u.label, "slice_sha": u.sha} for u in u5]
